@@ -45,6 +45,7 @@ fn main() {
                     Kind::Gpu => 6,
                     Kind::NetBuf => 7,
                     Kind::Sound => 4,
+                    Kind::Blk => 4,
                     _ => 3,
                 };
                 for usage in 0..=max_usage {
